@@ -20,6 +20,10 @@ CheckOf(e) ==
     [] e.e = "Run" -> RunCheck(e)
     [] e.e = "Obs" -> ObsCheck(e)
     [] e.e = "Esc" -> EscCheck(e)
+    [] e.e = "Mut" -> MutCheck(e.k)
+    [] e.e = "Reg" -> RegCheck(e)
+    [] e.e = "RunC" -> RunCCheck(e)
+    [] e.e = "ObsC" -> ObsCCheck(e)
     [] e.e = "Reset" -> ResetCheck(e.comb, e.n)
     [] OTHER -> "harness.unknownEvent"
 
@@ -29,6 +33,10 @@ UpdOf(e) ==
     [] e.e = "Run" -> RunUpd(e)
     [] e.e = "Obs" -> ObsUpd(e)
     [] e.e = "Esc" -> EscUpd(e)
+    [] e.e = "Mut" -> MutUpd(e.k)
+    [] e.e = "Reg" -> RegUpd(e)
+    [] e.e = "RunC" -> RunCUpd(e)
+    [] e.e = "ObsC" -> ObsCUpd(e)
     [] e.e = "Reset" -> ResetUpd(e.comb, e.n)
 
 TNext == /\ verdict = "ok"
